@@ -81,6 +81,80 @@ def run_tree(tree, st):
     reparse_cycle(data, st, tree, 'tree-file')
 
 
+HOSTILE_FIRST = [
+    # files a process may well have parsed earlier: tiny or unindented
+    # preambles for every usual indent, hostile option values, garbage
+    b'#diffx: encoding=utf-8, version=1.0\n#.preamble: indent=%d, length=1\n\n'
+    b'#.change:\n#..file:\n#...meta: length=3\n{}\n' % n
+    for n in (1, 2, 4, 7, 8, 13)
+] + [
+    b'#diffx: encoding=utf-8, version=1.0\n#.preamble: indent=%d, length=2\nx\n'
+    b'#.change:\n#..file:\n#...meta: length=3\n{}\n' % n
+    for n in (2, 4, 7, 13, 64)
+] + [
+    b'#diffx: encoding=utf-16, version=1.0\n#.preamble: indent=4, length=3\nabc',
+    b'#diffx: version=1.0\n#.meta: length=5\n{"a"\n',
+    b'#diffx: version=1.0\n#.change: encoding=cp037\n#..file:\n#...meta: '
+    b'length=3\n{}\n#...diff: length=2, line_endings=dos\na\n',
+    b'garbage', b'',
+]
+
+
+def run_after_other_parse(case, st):
+    from dxv import engine
+    labels, nontrivial = gen.program_features(case['program'])
+    st.case(case, nontrivial=nontrivial, classes=labels)
+    engine.run_isolated(_after_other_parse, case, st)
+
+
+def _after_other_parse(case, st):
+    ns = sut.load()
+
+    for blob in case['first']:
+        try:
+            ns.DiffX.from_bytes(blob)
+        except Exception:
+            pass
+
+        try:
+            list(ns.DiffXReader(__import__('io').BytesIO(blob)))
+        except Exception:
+            pass
+
+    program = case['program']
+
+    try:
+        data = roundtrip.write_program(program)
+    except Exception as e:
+        st.violation('writer-rejected-valid-program', repr(e), case)
+        return
+
+    reparse_cycle(data, st, case, 'writer-file-after-other-parses')
+    recs, err = sut.read_records(data)
+
+    if err is not None:
+        st.violation('reader-raised-after-other-parses', repr(err), case)
+        return
+
+    res = roundtrip.compare_records(program, recs)
+
+    if res is not None:
+        st.violation('after-other-parses-' + res[0], res[1], case)
+
+
+@hs.composite
+def after_cases(draw):
+    first = draw(hs.lists(hs.sampled_from(HOSTILE_FIRST), min_size=1,
+                          max_size=3))
+
+    if draw(hs.booleans()):
+        first.append(foreign.render(draw(foreign.docs(max_changes=1,
+                                                      max_files=1))).data)
+
+    return {'first': first,
+            'program': draw(gen.programs(max_changes=2, max_files=2))}
+
+
 def content_list(recs):
     out = []
 
@@ -171,6 +245,16 @@ def checks():
             budget={'quick': (16, 60), 'thorough': (16, 5000)},
             rule='canonical files produced by the streaming writer from '
                  'generated programs: from_bytes(b).to_bytes() == b; '
+                 'non-trivial as C01'),
+        HypCheck(
+            'after-other-parses', after_cases, run_after_other_parse,
+            budget={'quick': (16, 25), 'thorough': (16, 1500)},
+            rule='in a freshly forked process: first parse 1-4 other files '
+                 '(tiny or unindented preambles for every usual indent, '
+                 'hostile or truncated files, a foreign file), then write a '
+                 'generated program, read it back and run it through the '
+                 'parse/serialise cycle: state the library keeps between '
+                 'independent calls must not change the outcome; '
                  'non-trivial as C01'),
         HypCheck(
             'tree-files',
